@@ -163,22 +163,43 @@ def marker_range(src, body_lines, offending_line_text):
     return ls + indent, end
 
 
-def gen_cells():
-    """All (rule, context, where) cells with bad and good programs."""
+BENIGN = [
+    ["zb{n} = {n}"], ["mut zc{n} = 0", "zc{n} += 1"], ['zs{n} = "t{n}"', "println(zs{n})"], ["if 1 < 2:", "    pass"],
+    ["for zj{n} in range(1):", "    pass"], ["zl{n} = [1, 2]", "println(len(zl{n}))"], ["println({n})"], ["zp{n} = P(x={n}, name=\"q\")", "println(zp{n}.calc(1))"],
+    ["zm{n} = opt_int()", "match zm{n}:", "    Some(zo{n}) => println(zo{n})", "    None => println(0)"],
+]
+
+
+def benign(r, base):
+    """0-3 benign, well-typed statements with fresh names (host variation around the edited construct)."""
+    if r is None:
+        return []
+    out = []
+    for k in range(r.randint(0, 3)):
+        out += [l.format(n=base + k) for l in r.choice(BENIGN)]
+    return out
+
+
+def gen_cells(r=None):
+    """All (rule, context, where) cells with bad and good programs. With an rng, every cell gets random benign statements
+    before and after the edited construct (inside the same block) - the host variation."""
     cells = []
     for rule, bad, off, good in STMT_RULES:
         ret = "Result[int, str]" if rule.startswith("try.") else "None"
         for ctx, wrap in STMT_CONTEXTS.items():
             for where in ("function", "method"):
-                bad_src = build_program(wrap(bad), where, ret)
-                good_src = build_program(wrap(good), where, ret)
+                pre, post = benign(r, 100), benign(r, 200)
+                bad_src = build_program(wrap(pre + bad + post), where, ret)
+                good_src = build_program(wrap(pre + good + post), where, ret)
                 rng_ = marker_range(bad_src, None, bad[off].strip())
                 cells.append({"rule": rule, "ctx": ctx, "where": where, "bad": bad_src, "good": good_src, "range": rng_})
     for rule, bad_e, good_e in EXPR_RULES:
         for ctx, wrap in EXPR_CONTEXTS.items():
             for where in ("function", "method"):
                 ret = "int" if ctx == "return_value" else "None"
-                bl, gl = wrap(bad_e), wrap(good_e)
+                pre = benign(r, 100)
+                post = benign(r, 200) if ctx != "return_value" else []
+                bl, gl = pre + wrap(bad_e) + post, pre + wrap(good_e) + post
                 bad_src = build_program(bl, where, ret)
                 good_src = build_program(gl, where, ret)
                 # offending construct: the statement line that contains the bad expression
@@ -187,14 +208,14 @@ def gen_cells():
                 cells.append({"rule": rule, "ctx": ctx, "where": where, "bad": bad_src, "good": good_src, "range": rng_})
     # self mutation under plain `self`
     for ctx, wrap in STMT_CONTEXTS.items():
-        body_bad = wrap(["self.k = 5"])
+        body_bad = wrap(benign(r, 100) + ["self.k = 5"] + benign(r, 200))
         bad_src = HOST_DECLS + "\nmodel ZHost:\n    k: int\n\n    def zz_host(self, n: int) -> None:\n" + "\n".join(ind(body_bad, 2)) + "\n"
         good_src = bad_src.replace("def zz_host(self,", "def zz_host(mut self,")
         cells.append({"rule": "mutate_immutable.self_field", "ctx": ctx, "where": "method", "bad": bad_src, "good": good_src,
                       "range": marker_range(bad_src, None, "self.k = 5")})
     # return type mismatch in helper-like functions
     for ctx, wrap in STMT_CONTEXTS.items():
-        bad_src = HOST_DECLS + "\ndef zz_host(n: int) -> int:\n" + "\n".join(ind(wrap(['return "s"']))) + "\n    return 0\n"
+        bad_src = HOST_DECLS + "\ndef zz_host(n: int) -> int:\n" + "\n".join(ind(wrap(benign(r, 100) + ['return "s"']))) + "\n    return 0\n"
         good_src = bad_src.replace('return "s"', "return 7")
         cells.append({"rule": "wrong_type.return", "ctx": ctx, "where": "function", "bad": bad_src, "good": good_src,
                       "range": marker_range(bad_src, None, 'return "s"')})
@@ -275,16 +296,19 @@ def main(tier, seed, replay=None):
         return run.finish()
     run.run_known(eval_case)
     avoid = quarantined("C03")
-    cells = gen_cells()
     k = 3 if tier == "quick" else 40
     rng = random.Random(seed * 23 + 1)
     reqs, meta = [], []
-    for c in cells:
-        if c["range"] is None:
-            continue
-        if cell_feature(c) in avoid or (c["rule"] + "@*") in avoid or ("*@" + c["ctx"]) in avoid:
-            continue
-        for v in range(k):
+    cells = []
+    for v in range(k):
+        cells_v = gen_cells(random.Random(rng.getrandbits(48)) if v else None)
+        if v == 0:
+            cells = cells_v
+        for c in cells_v:
+            if c["range"] is None:
+                continue
+            if cell_feature(c) in avoid or (c["rule"] + "@*") in avoid or ("*@" + c["ctx"]) in avoid:
+                continue
             r = random.Random(rng.getrandbits(48))
             bad = vary(c["bad"], r)
             shift = len(bad.encode("utf-8")) - len(c["bad"].encode("utf-8"))
